@@ -44,6 +44,8 @@ def _weights(data):
 
 def center_of_mass(data, labels=None, index=None):
     w = _weights(data)
+    if labels is not None and w.shape != _np.shape(labels):
+        w = _np.broadcast_to(w, _np.shape(labels))
     res = []
     idxs = list(index) if index is not None else None
     single = False
@@ -65,6 +67,8 @@ def center_of_mass(data, labels=None, index=None):
 
 def sum_labels(data, labels=None, index=None):
     w = _weights(data)
+    if w.shape != _np.shape(labels):   # scipy broadcasts input against labels
+        w = _np.broadcast_to(w, _np.shape(labels))
     out = []
     for i in index:
         pts = _np.argwhere(labels == i)
